@@ -32,6 +32,7 @@ def flag (j : Json) (k : String) : Bool :=
 * `matrix`  `{names:[..],strict,pinned?}` → `{"rows":[one string per name, one character per column], "conv":[..], "conventional":[..]}`
 * `lex`     `{a}` → the split name and the class flags
 * `match`   `{v,expr}` → `{"r": "match"|"nomatch"|"M"|"I", "tokens":[..]}`
+* `legal`   `{expr}` → `{"r": "relational"|"plain"|"bad"}` (`Eups.isLegalRelativeVersion`)
 * `latest`  `{names:[..]}` → `{"idx": n | null}` or `{"err": ..}`
 * `stacks` / `stacksboth` (`{"cache":..,"db":..}`)  `{stacks:[[..]..],expr,minver?,db?}` → `{"latest", "latest_min", "preferred": [stack, version] | null | {"err"},
              "matches": [[stack, version]..] | {"err"}}`; `db`: the database branch (each stack in string order) -/
@@ -66,6 +67,10 @@ def handle : Handler := fun j => do
     | .ok true => pure (Json.mkObj [("r", "match"), ("tokens", toks)])
     | .ok false => pure (Json.mkObj [("r", "nomatch"), ("tokens", toks)])
     | .error er => pure (Json.mkObj [("r", resCode (.error er)), ("tokens", toks)])
+  | "legal" =>
+    let e ← jstr j "expr"
+    pure (Json.mkObj [("r", match isLegalRelativeVersion e with
+      | .relational => "relational" | .plain => "plain" | .badSyntax => "bad")])
   | "latest" =>
     let names ← jstrs j "names"
     match latest names with
